@@ -152,6 +152,10 @@ class Gen:
                                 cur = {'sec': dd[0], 'k': int(dd[1]), 'lines': [], 'uline': j + 1,
                                        'opts': _opts(dd[2:])}
                                 sections.append(cur)
+                            elif dd and dd[0] == 'before':
+                                # //@ before <callee> <k>: ghost code in front of the statement holding the k-th call of <callee>
+                                cur = {'sec': 'before', 'k': int(dd[2]), 'callee': dd[1], 'lines': [], 'uline': j + 1}
+                                sections.append(cur)
                             else:
                                 raise SpecError('%s:%d: unexpected directive inside fn: %s' % (self.unit_path, j + 1, t))
                         else:
@@ -498,6 +502,17 @@ class Gen:
                     self.dropped_loop_sections.append('%s: %s has %d loop(s), contract names loop %d' % (rel, qual, len(loops), k))
                     continue
                 off = loops[k - 1]['close'] if kind == 'loopend' else loops[k - 1]['open'] + (1 if kind == 'loopbody' else 0)
+            elif kind == 'before':
+                calls = [m.start() for m in re.finditer(r'\b%s\s*\(' % re.escape(sec['callee']), masked[body_open:body_close])]
+                if sec['k'] < 1 or sec['k'] > len(calls):
+                    # the call the ghost code was written for is gone: its assertions are dropped (recorded); the
+                    # function's own contract is still checked
+                    self.dropped_loop_sections.append('%s: %s has %d call(s) of %s, contract names call %d' % (rel, qual, len(calls), sec['callee'], sec['k']))
+                    continue
+                c = body_open + calls[sec['k'] - 1]
+                # the statement holding the call starts on the call's own line (rustfmt layout); anything else fails to
+                # parse and is reported as tool trouble, never as a violation
+                off = text.rfind('\n', 0, c) + 1
             elif kind == 'tail':
                 off = rsx.fn_tail_offset(text)
                 if off is None:
